@@ -197,11 +197,14 @@ func (p *printer) userType(t *spec.UserType) {
 	v := TypeVar(t.Name)
 	switch t.Kind {
 	case "alias":
-		if t.Val.Empty() && len(t.Meta) == 0 {
+		if t.Val.Empty() && len(t.Meta) == 0 && t.AliasDefault == nil {
 			p.ln("%s = Type(%s, %s)", v, q(t.Name), p.typeExpr(t.Def))
 		} else {
 			p.open("%s = Type(%s, %s, func() {", v, q(t.Name), p.typeExpr(t.Def))
 			p.validations(t.Def, t.Val)
+			if t.AliasDefault != nil {
+				p.ln("Default(%s)", Leaf(t.AliasDefault))
+			}
 			p.meta(t.Meta)
 			p.close("})")
 		}
